@@ -206,7 +206,7 @@ static NEXT_FRESH: std::sync::atomic::AtomicUsize = std::sync::atomic::AtomicUsi
 
 /// Executes one history on the real globals. Global indices of the case are mapped to pool globals: a global
 /// whose attach handle the history forgets gets a never-used one.
-fn exec_ops(ops: &[Op]) -> Result<Sx, String> {
+fn exec_ops(ops: &[Op], unwinding: bool) -> Result<Sx, String> {
     let log: Log = Arc::new(Mutex::new(vec![]));
     // which case-level globals get burnt
     let mut handle_global: Vec<usize> = vec![];
@@ -251,7 +251,7 @@ fn exec_ops(ops: &[Op]) -> Result<Sx, String> {
                 match on(c.t, c.rt, move || (gv.attach)(sink, probe)) { Some(h) => { handles.push(Some(h)); ok(handles.len() as u64 - 1) } None => panicked() }
             }
             Op::DropHandle(c, h) => match handles.get_mut(h).and_then(|x| x.take()) {
-                Some(hd) => { on(c.t, c.rt, move || drop(hd)).map(|_| ok(0)).unwrap_or_else(panicked) }
+                Some(hd) => { on(c.t, c.rt, move || crate::common::drop_placed(hd, unwinding)).map(|_| ok(0)).unwrap_or_else(panicked) }
                 None => noop(),
             },
             Op::ForgetHandle(c, h) => match handles.get_mut(h).and_then(|x| x.take()) {
@@ -268,7 +268,7 @@ fn exec_ops(ops: &[Op]) -> Result<Sx, String> {
                 }
             }
             Op::DropTL(k) => match tl_guards.get_mut(k).and_then(|x| x.take()) {
-                Some(t) => on(t, None, move || { let gd = TL_GUARDS.with(|m| m.borrow_mut().remove(&k)); drop(gd); }).map(|_| ok(0)).unwrap_or_else(panicked),
+                Some(t) => on(t, None, move || { let gd = TL_GUARDS.with(|m| m.borrow_mut().remove(&k)); crate::common::drop_placed(gd, unwinding); }).map(|_| ok(0)).unwrap_or_else(panicked),
                 None => noop(),
             },
             Op::SetRT(g, c, r, s) => {
@@ -283,7 +283,7 @@ fn exec_ops(ops: &[Op]) -> Result<Sx, String> {
                 match on(c.t, c.rt, move || (gv.set_rt_cur)(sink)) { Some(gd) => { rt_guards.push(Some(gd)); ok(rt_guards.len() as u64 - 1) } None => panicked() }
             }
             Op::DropRT(c, k) => match rt_guards.get_mut(k).and_then(|x| x.take()) {
-                Some(gd) => on(c.t, c.rt, move || drop(gd)).map(|_| ok(0)).unwrap_or_else(panicked),
+                Some(gd) => on(c.t, c.rt, move || crate::common::drop_placed(gd, unwinding)).map(|_| ok(0)).unwrap_or_else(panicked),
                 None => noop(),
             },
             Op::Append(g, c, e) => {
@@ -352,7 +352,9 @@ pub fn exec(case: &Sx) -> (Sx, bool, Option<String>) {
     }
     let nontrivial = ops.iter().filter(|o| matches!(o, Op::Attach(..) | Op::SetTL(..) | Op::SetRT(..) | Op::SetRTCur(..))).count() >= 1
         && ops.iter().any(|o| matches!(o, Op::Append(..) | Op::TryAppend(..)));
-    match exec_ops(&ops) { Ok(x) => (x, nontrivial, None), Err(e) => (sx::tag(99, vec![]), false, Some(e)) }
+    // second element (not read by the model): every handle / guard drop of the history happens on an unwinding frame
+    let unwinding = case.list().get(1).map(|x| x.num() != 0).unwrap_or(false);
+    match exec_ops(&ops, unwinding) { Ok(x) => (x, nontrivial, None), Err(e) => (sx::tag(99, vec![]), false, Some(e)) }
 }
 
 // ------------------------------------------------------------------------------------------- generators
@@ -402,7 +404,12 @@ fn op_name(o: &Op) -> &'static str {
     }
 }
 fn emit(out: &mut Out, ops: &[Op], kind: &str) {
-    let case = Sx::L(vec![Sx::L(ops.iter().map(enc_op).collect())]);
+    emit_placed(out, ops, kind, false);
+}
+fn emit_placed(out: &mut Out, ops: &[Op], kind: &str, unwinding: bool) {
+    let mut cv = vec![Sx::L(ops.iter().map(enc_op).collect())];
+    if unwinding { cv.push(sx::boolean(true)); }
+    let case = Sx::L(cv);
     let (imp, nt, err) = exec(&case);
     if let Some(e) = err { out.fail(format!("harness could not run the case: {e}"), &case); }
     out.count(kind);
@@ -567,6 +574,10 @@ pub fn run(ctx: &Ctx) {
     let mut all: Vec<Vec<Op>> = vec![];
     rec(&mut vec![], depth, &alphabet, &mut |ops| all.push(ops.to_vec()));
     for ops in &all { emit(&mut out, ops, "exhaustive_small_histories"); }
+    // the histories that drop a handle or guard, once more with every such drop placed on an unwinding frame
+    for ops in all.iter().filter(|o| o.iter().any(|x| matches!(x, Op::DropHandle(..) | Op::DropTL(..) | Op::DropRT(..)))) {
+        emit_placed(&mut out, ops, "histories_with_drops_during_unwind", true);
+    }
     // random histories
     let mut rng = Rng::new(ctx.seed);
     let n = if thorough { 120000 } else { 4000 };
@@ -578,6 +589,7 @@ pub fn run(ctx: &Ctx) {
         let nglobals = if forget { 1 } else { rng.range(1, 3) as usize };
         let ops = g_ops(&mut rng, len, nglobals, forget);
         emit(&mut out, &ops, if forget { "random_histories_with_forget" } else { "random_histories" });
+        if !forget && i % 5 == 0 { emit_placed(&mut out, &ops, "histories_with_drops_during_unwind", true); }
     }
     out.finish("operation histories (attach / drop / forget handle, thread-local and runtime test sinks and their guards, append / try_append / sink() / held sinks / is_attached / with_test_sink) over up to 3 globals, 3 OS threads (each optionally entered into one of 2 tokio runtimes) and the 2 runtimes' worker threads; exhaustive small histories on one global plus random ones. Non-trivial = at least one install and one append; distinct by hash of the case");
 }
